@@ -22,6 +22,8 @@
 package operators
 
 import (
+	"crypto/sha256"
+	"encoding/hex"
 	"fmt"
 
 	"github.com/corazawaf/coraza/v3/experimental/plugins/plugintypes"
@@ -34,6 +36,19 @@ func memoizeDo(m plugintypes.Memoizer, key string, fn func() (any, error)) (any,
 		return m.Do(key, fn)
 	}
 	return fn()
+}
+
+// contentKey identifies a list of strings by content for use in a memoize key. Every key is
+// prefixed with the kind of artifact it caches ("pm:", "pmds:", "pmf:", "re:", "rx:", "rxbin:",
+// "schema:"), because the cache is process-wide and values of different kinds (or built from
+// different inputs) must never share an entry.
+func contentKey(items []string) string {
+	h := sha256.New()
+	for _, it := range items {
+		fmt.Fprintf(h, "%d:", len(it))
+		h.Write([]byte(it))
+	}
+	return hex.EncodeToString(h.Sum(nil))
 }
 
 // Get returns an operator by name
